@@ -16,7 +16,7 @@ func init() {
 		Explanation: "Static gate / pairing / provenance rules over Agent.UpdatePeers and AddPeers: (after-update) every node mutator (RemoveTrustedPeer, DisconnectPeer, ConnectPeer, AddTrustedPeer), direct or through helpers, is reachable only through the success edge of the pool's Update call; " +
 			"(pairwise) each iteration over the invalid list calls RemoveTrustedPeer then DisconnectPeer with the same id, derived from that list's element; (invalid-list) without strict mode the list is the pool's InvalidPeers untouched, " +
 			"with strict mode it is rebuilt from the local peer list and a peer is kept out only on lookup-hit and equal remote host, the lookup being built from the pool's ActivePeers (id -> host, ports not compared); " +
-			"(shortfall) AddPeers is called exactly when NumHosts - len(ActivePeers) > 0, with that difference, which becomes PeerRequest.Num; Kind is the node's own kind iff it is not a full node; every returned peer's URI is dialled.",
+			"(shortfall) AddPeers is called exactly when NumHosts - len(ActivePeers) > 0, with that difference, which becomes PeerRequest.Num; Kind is the node's own kind iff it is not a full node; every returned peer's URI is dialled. Round 2: nothing mutates the node on the failure edge of an UpdatePeers call; only UpdatePeers/AddPeers regions and agent.Service methods may call node mutators; (fresh-reply) each RemotePool stub decodes into a fresh local; EnodeURI carries Network.RemoteAddress on every return.",
 		NotDecided: []string{"not decided: multi-round convergence; behaviour of the node's own RPC; URI parsing of hostile peer descriptions (C15)"},
 	}
 }
